@@ -9,7 +9,7 @@
 (*   R   inside ( )                    CX  CASE expression ... END           *)
 (*   CH  CREATE FUNCTION/PROCEDURE/TRIGGER header                            *)
 (*   DS  DECLARE section               B0  outermost BEGIN body              *)
-(*   B   nested BEGIN body             S   simple body statement ... ;       *)
+(*   B   nested BEGIN body             S0/S simple body statement ... ;      *)
 (*   IC  IF condition   IB  IF body ... END IF                               *)
 (*   FH  FOR header     WH  WHILE header                                     *)
 (*   LB  loop body ... END LOOP        WB  WHILE..DO body ... END WHILE      *)
@@ -41,7 +41,7 @@ InBody(stk) == \E i \in 1..Len(stk) : stk[i] = "B0"
 \* statements that may start inside a body-like frame
 BodyStarts(stk) ==
     (IF CanPush(stk) THEN
-       { Mv(Tok("other", "name"), Push(stk, "S"), FALSE) }
+       { Mv(Tok("other", "name"), Push(stk, "S0"), FALSE) }
        \cup (IF "if" \in Allow THEN { Mv(Tok("if", "if"), Push(stk, "IC"), FALSE) } ELSE {})
        \cup (IF "for" \in Allow THEN { Mv(Tok("for", "for"), Push(stk, "FH"), FALSE) } ELSE {})
        \cup (IF "whileloop" \in Allow \/ "whiledo" \in Allow THEN { Mv(Tok("while", "while"), Push(stk, "WH"), FALSE) } ELSE {})
@@ -101,8 +101,10 @@ Moves(stk) ==
            \cup { Mv(Tok("begin", "begin"), Repl(stk, "B0"), FALSE) }
       [] f = "B0" -> BodyStarts(stk) \cup { Mv(Tok("end", "end"), Repl(stk, "CE"), FALSE) }
       [] f = "B"  -> BodyStarts(stk) \cup { Mv(Tok("end", "end"), Repl(stk, "ES"), FALSE) }
-      [] f = "S"  -> Expr(stk) \cup Stay(stk, { Tok("other", "assign") })
-                     \cup { Mv(Tok("semi", "semi"), Pop(stk), FALSE) }
+      [] f = "S0" -> { Mv(Tok("other", "assign"), Repl(stk, "S"), FALSE), Mv(Tok("ws", "ws"), stk, FALSE),
+                       Mv(Tok("other", "name"), Repl(stk, "S"), FALSE), Mv(Tok("kw", "kw"), Repl(stk, "S"), FALSE),
+                       Mv(Tok("semi", "semi"), Pop(stk), FALSE) }
+      [] f = "S"  -> Expr(stk) \cup { Mv(Tok("semi", "semi"), Pop(stk), FALSE) }
       [] f = "IC" -> Stay(stk, { Tok("other", "name"), Tok("other", "cmp"), Tok("ws", "ws") })
                      \cup { Mv(Tok("kw", "then"), Repl(stk, "IB"), FALSE) }
       [] f = "IB" -> BodyStarts(stk) \cup Stay(stk, { Tok("kw", "else") })
@@ -127,7 +129,7 @@ Closing(stk) ==
     LET f == Top(stk)
         want == CASE f = "P" -> {"semi"} [] f = "R" -> {"rp"} [] f = "CX" -> {"end"}
                   [] f = "CH" -> {"begin"} [] f = "DS" -> {"begin"} [] f = "B0" -> {"end"}
-                  [] f = "B" -> {"end"} [] f = "S" -> {"semi"} [] f = "IC" -> {"then"}
+                  [] f = "B" -> {"end"} [] f = "S" -> {"semi"} [] f = "S0" -> {"semi"} [] f = "IC" -> {"then"}
                   [] f = "IB" -> {"endif"} [] f = "FH" -> {"loop"} [] f = "WH" -> {"loop", "do"}
                   [] f = "LB" -> {"endloop"} [] f = "WB" -> {"endwhile"} [] f = "CS" -> {"end"}
                   [] f = "CS2" -> {"case"} [] f = "ES" -> {"semi"} [] f = "CE" -> {"semi"}
